@@ -1097,7 +1097,7 @@ func (t *Transport) roundTrip(req *http.Request) (resp *http.Response, err error
 			if e, ok := err.(transportReadFromServerError); ok {
 				err = e.err
 			}
-			if b, ok := req.Body.(*readTrackingBody); ok && !b.didClose {
+			if b, ok := req.Body.(*readTrackingBody); ok && !b.wasClosed() {
 				// Issue 49621: Close the request body if pconn.roundTrip
 				// didn't do so already. This can happen if the pconn
 				// write loop exits without reading the write request.
@@ -1129,6 +1129,13 @@ type readTrackingBody struct {
 	io.ReadCloser
 	didRead  bool
 	didClose bool
+
+	// The body may be closed by the goroutine that ends a cancelled round trip while the
+	// write loop, whose Read it interrupts that way, closes it as well: the underlying
+	// Close runs once.
+	closeMu  sync.Mutex
+	closed   bool
+	closeErr error
 }
 
 func (r *readTrackingBody) Read(data []byte) (int, error) {
@@ -1137,8 +1144,22 @@ func (r *readTrackingBody) Read(data []byte) (int, error) {
 }
 
 func (r *readTrackingBody) Close() error {
+	r.closeMu.Lock()
+	defer r.closeMu.Unlock()
+	if r.closed {
+		return r.closeErr
+	}
+	r.closed = true
 	r.didClose = true
-	return r.ReadCloser.Close()
+	r.closeErr = r.ReadCloser.Close()
+	return r.closeErr
+}
+
+// wasClosed reports whether Close has been called.
+func (r *readTrackingBody) wasClosed() bool {
+	r.closeMu.Lock()
+	defer r.closeMu.Unlock()
+	return r.closed
 }
 
 // setupRewindBody returns a new request with a custom body wrapper
@@ -1159,10 +1180,10 @@ func setupRewindBody(req *http.Request) *http.Request {
 // rewindBody takes care of closing req.Body when appropriate
 // (in all cases except when rewindBody returns req unmodified).
 func rewindBody(req *http.Request) (rewound *http.Request, err error) {
-	if req.Body == nil || req.Body == NoBody || (!req.Body.(*readTrackingBody).didRead && !req.Body.(*readTrackingBody).didClose) {
+	if req.Body == nil || req.Body == NoBody || (!req.Body.(*readTrackingBody).didRead && !req.Body.(*readTrackingBody).wasClosed()) {
 		return req, nil // nothing to rewind
 	}
-	if !req.Body.(*readTrackingBody).didClose {
+	if !req.Body.(*readTrackingBody).wasClosed() {
 		closeBody(req)
 	}
 	if req.GetBody == nil {
@@ -3537,6 +3558,12 @@ func (pc *persistConn) roundTrip(req *transportRequest) (resp *http.Response, er
 			default:
 			}
 			pc.cancelRequest(context.Cause(req.ctx))
+			// The write loop may be inside the request body's Read, which closing the connection
+			// does not interrupt; mapRoundTripError waits for the write loop. Closing the body is
+			// what releases a producer that has stalled (RoundTrip closes the body in any case).
+			if b, ok := req.Request.Body.(*readTrackingBody); ok {
+				b.Close()
+			}
 		}
 	}
 }
